@@ -136,6 +136,7 @@ int hx_serve(hx_history_fn run) {
         if (pid == 0) {
             int ofd = fcntl(1, F_DUPFD, 200), nul = open("/dev/null", O_RDONLY);
             dup2(nul, 0); close(nul);
+            dup2(ofd, 2);            /* UBSan writes its reports to descriptor 2 */
             hx_out = fdopen(ofd, "w");
             __sanitizer_set_report_fd((void*)(intptr_t)ofd);
             alarm(timeout);
